@@ -57,7 +57,7 @@ def merge(reports):
         "evals": 0, "monitors": collections.Counter(), "classes": collections.Counter(),
         "paths": collections.Counter(), "events": collections.Counter(), "distinct": 0,
         "samples": [], "violations": [], "violation_count": 0, "vkeys": collections.Counter(), "exhaustive": [],
-        "notes": {}, "unavailable": [], "inconclusive": [], "fatal": [], "shard_wall_s": [],
+        "notes": {}, "unavailable": [], "inconclusive": [], "fatal": [], "shard_wall_s": [], "lines": {},
     }
     for r in reports:
         if "fatal" in r:
@@ -81,10 +81,16 @@ def merge(reports):
                 m["unavailable"].append(u)
         m["inconclusive"].extend(r["inconclusive"])
         m["shard_wall_s"].append(r["wall_s"])
+        for fn, d in (r.get("lines") or {}).items():
+            t = m["lines"].setdefault(fn, {"exec": set(), "all": set(), "file": d["file"]})
+            t["exec"].update(d["exec"])
+            t["all"].update(d["all"])
     return m
 
 
 def write_evidence(pid, tier, seed, mod, m, wall, verdict, known_hit, extra_assumptions=()):
+    from .monitors import observe
+    line_cov, line_missing = observe.summarize(m.get("lines") or {})
     evdir = os.environ.get("PV_EVIDENCE_DIR") or os.path.join(core.VERIF, "evidence")
     if os.path.abspath(os.environ.get("PV_REPO", "/repo")) != "/repo" and not os.environ.get("PV_EVIDENCE_DIR"):
         evdir = os.path.join(core.VERIF, ".work", "evidence_scratch")    # runs against scratch trees are not evidence for /repo
@@ -103,6 +109,8 @@ def write_evidence(pid, tier, seed, mod, m, wall, verdict, known_hit, extra_assu
         "exhaustive": False,
         "known_findings_hit": known_hit,
         "observer_unavailable": m["unavailable"],
+        "anchored_functions_line_coverage": line_cov,
+        "anchored_lines_never_executed": line_missing,
         "inconclusive_reasons": m["inconclusive"] + [f.get("fatal", "") + ":" + f.get("detail", "") for f in m["fatal"]],
         "notes": m["notes"],
         "shards": len(m["shard_wall_s"]),
@@ -204,7 +212,8 @@ def main(argv=None):
     m["notes"]["model_selftests_passed"] = ran
 
     # violations reported by monitors outside this property's scope are kept as information only
-    scope = getattr(mod, "SCOPE", None)
+    from .scope import SCOPES
+    scope = getattr(mod, "SCOPE", None) or SCOPES.get(pid)
     out_of_scope = collections.Counter()
     if scope is not None:
         for key in list(m["vkeys"]):
